@@ -81,8 +81,8 @@ def lookupBranch (cfg : Cfg) (now : Int) (ign : Bool) (e : Entry) : String :=
   if deadline > now then
     if e.deadlineNano ≤ now then "fresh.fallback_packed_path_expired"
     else
-      let cur : Nat := max 1 ((e.deadlineNano - now) / SEC).toNat
-      if e.packed ∧ (if e.packedTTL ≥ cur then e.packedTTL - cur ≤ SLACK else cur - e.packedTTL ≤ SLACK) then
+      let cur : Nat := curTtl e now
+      if e.packed ∧ withinSlack e.packedTTL cur then
         (if e.packedTTL = cur then "fresh.packed_exact" else
           if e.packedTTL - cur = SLACK then "fresh.packed_slack_exactly_15" else "fresh.packed_within_slack")
       else if now - e.packedAt > SEC ∧ e.ns ≠ 2 then "fresh.repacked"
